@@ -1249,11 +1249,13 @@ class Executor:
             declared = sorted(self.contract.loops) if (self.contract is not None and self.inline_depth == 0) else []
             spare = [k for k in declared if k >= own]
             order = sorted(set(sub.loop_ids.values()))
-            if len(spare) < len(order):
-                raise Unsupported(f"loop in helper {qualname} that has no contract (no invariant to check it against)")
-            remap = {old: spare[j] for j, old in enumerate(order)}
-            sub.loop_ids = {nid: remap[k] for nid, k in sub.loop_ids.items()}
-            sub.contract = self.contract
+            if len(spare) >= len(order) and spare:
+                remap = {old: spare[j] for j, old in enumerate(order)}
+                sub.loop_ids = {nid: remap[k] for nid, k in sub.loop_ids.items()}
+                sub.contract = self.contract
+            else:
+                # no invariant to hand down: a loop that really needs one (not a pointwise comprehension) is out of reach
+                sub.needs_invariants = qualname
         self.run.inlined = getattr(self.run, "inlined", set()) | {qualname}
         return sub.run_body(path, recv, ca, node)
 
@@ -1660,6 +1662,8 @@ class Executor:
         """A loop without a contract gets the trivial invariant `true` (sound: nothing is known
         after it except the frame); used for message-building comprehensions."""
         sp = self.loop_spec(node)
+        if sp is None and getattr(self, "needs_invariants", None):
+            raise Unsupported(f"loop in helper {self.needs_invariants} that has no contract (no invariant to check it against)")
         if sp is None:
             self.run.trivial_loops = getattr(self.run, "trivial_loops", 0) + 1
             return LoopSpec(lambda s0, s, a, l: {}, modifies=TRIVIAL_LOOP_MODIFIES)
